@@ -113,6 +113,14 @@ Theorem C18_agree_implies_spec_ok : forall sc o, model_agrees sc o = true -> spe
 Proof. exact agree_implies_spec_ok. Qed.
 Print Assumptions C18_agree_implies_spec_ok.
 
+(** When the caller's context ends at an arbitrary point the fault script no longer fixes
+    what [Do] returns; what stays fixed, and what part "upx" of the check observes: in
+    every final state Close has returned after [Do] did, and exactly what [Do] returned. *)
+Theorem C18_close_is_do_partial : forall cf s,
+  closes cf = true -> reachable cf s -> final cf s = true -> xspec_ok (xobs_of cf s) = true.
+Proof. exact xspec_sound. Qed.
+Print Assumptions C18_close_is_do_partial.
+
 (** * Requests on disjoint subtrees *)
 
 (** Two calls anchored at disjoint roots commute: same tree, same two answers. *)
